@@ -607,17 +607,23 @@ class C18(Spec, Main):
 SPEC = C18()
 
 CLAIM = dict(
-    text=("Kernel-checked theorems (exact rational arithmetic, every k, every positive weight stream, every draw sequence) about an executable "
-          "Lean model of ebpps_sketch/ebpps_sample: n and cumulative weight exact, c = rho*cumWt = min(k, cumWt/wtMax) after every update, "
-          "|data| = floor(c) and partial item present iff frac(c) > 0 with every stored item an input item (hence every get_result has floor(c) or "
-          "ceil(c) items), equal weights with n <= k keep everything, the same after merges in both directions, and the one-step PPS identities "
-          "(interval lengths of the draw regions); plus a bit-for-bit differential tie of the Float instance of the same definitions to the real "
-          "headers with all draws supplied through the hook, plus the property oracle (closed form and sample-size law from the history in exact "
-          "arithmetic) on every implementation trace."),
+    text=("Kernel-checked theorems (exact rational arithmetic; every k, every positive weight stream, every draw sequence) about an executable "
+          "Lean model of ebpps_sketch/ebpps_sample written once over an ops-only numeric class: n and cumulative weight exact (eb_counts), "
+          "c = rho*cumWt = min(k, cumWt/wtMax) after every update (eb_c_closed_form), |data| = floor(c), partial item present iff frac(c) > 0, every "
+          "stored item an input item, hence every get_result has floor(c) or ceil(c) items (eb_structure), equal weights with n <= k keep every item "
+          "for any draws (eb_equal_weights_keep_all), the same invariants after a merge in both directions (eb_merge), for EVERY merge tree once "
+          "the proposed repairs are in (eb_all_histories_repaired), and the one-step PPS identities with exact region lengths and uniform index "
+          "draws: downsample scales every resident item's inclusion by rho'/rho, the merge adds the new item with probability rho'*w "
+          "(eb_one_step_pps_downsample / _new_item / _merge); plus a bit-for-bit differential tie of the Float instance of the SAME definitions to the "
+          "real headers with all draws supplied through the DATASKETCHES_VERIF hook, plus the property oracle (closed form and sample-size law "
+          "recomputed from the history with exact fractions) on every implementation trace."),
     note=("NOT formalised: the global statement 'over the sampling randomness each item's inclusion probability is proportional to its weight' "
-          "(a statement about the joint distribution of all draws; DESIGN.md section 5) - only the one-step identities are proved. "
-          "Floating-point rounding is not modelled in the theorems. Findings on the pinned code (open, with proposed patches): internal_merge never "
-          "stores the new maximum weight; a next_double() of exactly 0.0 loses the partial item; an empty merge operand does not lower k / lowers k "
-          "without shrinking the sample."),
+          "(a statement about the joint distribution of all draws of a whole history; DESIGN.md section 5) - only the one-step identities are "
+          "proved. Binary64 rounding is not modelled in the theorems (the Float instance is only executed and compared). Open findings on the pinned "
+          "code, each with a Lean witness or a bit-exact model reproduction, a replayed regress history and a proposed patch: internal_merge never "
+          "stores the new maximum weight (eb_c_closed_form_full_false); a next_double() of exactly 0.0 loses the partial item "
+          "(eb_structure_full_false); an empty merge operand does not lower k / lowers k without shrinking the sample (eb_merge_full_false); two "
+          "rounding defects in merge (theta one ulp above 1; a vanishing fraction promoted to a full item) that break the sample-size law and can "
+          "index past data_. The generator steers around continuations that would crash the pinned code after those defects."),
     technique="Lean 4 invariant proofs over Rat (generic model, Float instance executed) + differential correspondence with hook-supplied draws + trace oracle",
     design="DESIGN.md §3 C18")
